@@ -9,7 +9,7 @@ RULE = ('programs x sequences of K<=2 (thorough: sampled K=3,4) requests from {p
         'loop-callback slot (same-slot both orders), from listener callbacks and from step functions; every live end configuration gets a '
         'probing kill; distinct by (program, plan); non-trivial when a kill was delivered to a live process')
 ASSUMPTIONS = ['steps complete without external stimulus (asyncio.sleep(0) yields only)', 'quiescence = empty ready queue, no timers']
-REQUIRED = ['kill_live', 'quiescent_checks', 'kill_phase/unstarted', 'kill_phase/running-step', 'kill_phase/waiting-step', 'kill_phase/paused',
+REQUIRED = ['kill_after_abort', 'kill_live', 'quiescent_checks', 'kill_phase/unstarted', 'kill_phase/running-step', 'kill_phase/waiting-step', 'kill_phase/paused',
             'kill_phase/pausing', 'kill_phase/listener']
 ALPHABET = [['pause', 'p'], ['play'], ['kill', 'k'], ['resume', ['v']], ['cancel_future']]
 KILLS = ('kill', 'cancel_future')
@@ -44,6 +44,13 @@ def gen_cases(tier, seed):
                     if act[0] in KILLS or other[0] in KILLS:
                         for s in (range(0, n + 1) if tier == 'thorough' else range(0, n + 1, 2)):
                             plist.append([{'at': s, 'act': other}, base])
+        # fault: the task stepping the process is aborted mid-step (a caller's timeout), then a kill arrives
+        # (the kill is placed after the cancellation has been processed, i.e. at the following quiescent point: a request inside
+        # the window between task.cancel() and its delivery is outside the property's quantifier, see DESIGN.md section 6)
+        for s1 in range(1, n + 1):
+            plist.append([{'at': s1, 'act': ['abort_task']}, {'at': 'q', 'act': ['kill', 'k']}])
+            plist.append([{'at': s1, 'act': ['abort_task']}, {'at': 'q', 'act': ['pause', 'p']}, {'at': 'q', 'act': ['kill', 'k']}])
+            plist.append([{'at': s1, 'act': ['abort_task']}, {'at': 'q', 'act': ['restart_task']}, {'at': 'q', 'act': ['kill', 'k']}])
         if tier == 'thorough':
             plist += [p for p in plans.sampled_placements(rng, n, ALPHABET, 3, 1500) if _has_kill(p)]
             plist += [p for p in plans.sampled_placements(rng, n, ALPHABET, 4, 800) if _has_kill(p)]
@@ -95,6 +102,7 @@ def run_case(case):
                 obs['kill_phase'][ph] = obs['kill_phase'].get(ph, 0) + 1
             r = a['ret'][0] if a['ret'][0] != 'value' else str(a['ret'][1])
             obs['kill_returns'][r] = obs['kill_returns'].get(r, 0) + 1
+    obs['kill_after_abort'] = int(any(a['kind'] == 'abort_task' for a in rec['acts']) and first is not None)
     if first is not None:
         obs['quiescent_checks'] = sum(1 for q in rec['qpoints'] if q['nacts'] > first)
     if rec['final']:
